@@ -446,7 +446,7 @@ def invpair(ctx, prog, scope=None, floors=(75, 60)):
             if callee_of(t).endswith("hint::assert_unchecked"):
                 if sy is None:
                     sy = Sym(f)
-                    ctx.visit(f)
+                    ctx.visit(f, weak=True)
                 cond = sy.operand(t["args"][0])
                 n += 1
                 key = "%s: invariant!(%s)" % (f.short, re.sub(r"_\d+\b", "", show(cond))[:110])
@@ -705,7 +705,7 @@ def assertions_pure(ctx, prog, floor=40):
                     bad.append(("store %s inside a debug-only assertion" % pl(st["lhs"]), st["sp"]))
         for w, sp in bad:
             bad_total += 1
-            ctx.visit(f)
+            ctx.visit(f, weak=True)
             ctx.ob(RA, "%s: debug-only assertions carry no effect" % f.short, False, w, f.loc(sp))
     ctx.ob(RA, "no debug-only assertion in the crate hands out `&mut` to caller-visible state or stores through it", bad_total == 0, "%d calls inside assertion regions inspected" % n)
     ctx.floor(RA, n, floor, "calls inside debug-assertion regions")
